@@ -380,6 +380,7 @@ pub fn run(ctx: &mut Ctx) {
         let has_p0 = proj.steps.iter().any(|s| s.outs.iter().any(|o| o == "p0"));
         if has_p0 { clock += 1; ops.push(Op::W("p0".into(), clock, b"cache v1".to_vec())); ctx.count("with_phony_declared_source"); }
         for i in 0..NHDR { if !rng.chance(1, 8) { clock += 1; ops.push(Op::W(format!("h{}", i), clock, format!("hdr{}", i).into_bytes())); } }
+        let mut removed: Vec<String> = vec![];
         let nops = rng.range(4, 14);
         let mut last_was_invoke = false;
         for step in 0..nops {
@@ -388,6 +389,10 @@ pub fn run(ctx: &mut Ctx) {
                 let mut targets = vec![];
                 if rng.chance(1, 3) { let outs = proj.all_outs(); if !outs.is_empty() { targets.push(outs[rng.below(outs.len())].clone()); } }
                 if rng.chance(1, 30) { targets.push("./o0".into()); }
+                // names the manifest no longer (or never) declares but the build log may know: outputs of
+                // removed steps, headers known only from depfiles
+                if rng.chance(1, 12) && !removed.is_empty() { targets.push(removed[rng.below(removed.len())].clone()); ctx.count("target_removed_output"); }
+                if rng.chance(1, 40) { targets.push(format!("h{}", rng.below(NHDR))); }
                 // the manifest named by `-f` under different spellings of the same file
                 let mf = match rng.below(12) { 0 => "./build.ninja", 1 => "zz/../build.ninja", _ => "build.ninja" }.to_string();
                 ops.push(Op::I { par: rng.range(1, 3), k: if rng.chance(1, 3) { Some(rng.range(1, 2)) } else { None }, adopt: rng.chance(1, 30), targets, mf });
@@ -448,6 +453,7 @@ pub fn run(ctx: &mut Ctx) {
                         proj.steps[i].flag = if rng.chance(1, 2) { format!("-g{}", version) } else { "-s".to_string() };
                     }
                     4 => { if proj.steps.len() > 2 { let i = rng.below(proj.steps.len()); let gone = proj.steps.remove(i);
+                            removed.extend(gone.outs.iter().cloned());
                             proj.defaults.retain(|d| !gone.outs.contains(d));
                             for st in proj.steps.iter_mut() { for l in [&mut st.expl, &mut st.impl_, &mut st.oo, &mut st.val] { for x in l.iter_mut() { if gone.outs.contains(x) && !x.starts_with('c') { *x = "s0".into(); } } } } } }
                     _ => { let i = rng.below(proj.steps.len()); if proj.steps[i].rule != "phony" { proj.steps[i].impl_.insert(0, format!("s{}", rng.below(NSRC))); } }
